@@ -341,6 +341,9 @@ def run(ctx):
             raise C.CheckBroken("cannot parse diagnosis %r" % diags[cid])
         model_diag, scopes, full_scope = m.group(1), m.group(2).split(), m.group(3)
         points = process_points(rec)
+        if rec["steps"][-1]["ev"] == "P" and "panic" not in rec["steps"][-1] and scopes and scopes[-1] != full_scope:
+            raise C.CheckBroken("the two evaluations of the theorem's hypotheses disagree on %r: %s vs %s"
+                                % (rec["h"], scopes[-1], full_scope))
         if model_diag:
             model_bad.append((rec["h"], model_diag))
         # non-trivial: some later process reprocessed or removed something
